@@ -16,7 +16,7 @@ jobs = 1
 if args and args[0] == "-j":
     jobs = int(args[1])
     args = args[2:]
-names = args or sorted(d for d in os.listdir(SEEDED) if os.path.isdir(os.path.join(SEEDED, d)))
+names = args or sorted(d for d in os.listdir(SEEDED) if re.match(r"C\d\d", d) and os.path.isdir(os.path.join(SEEDED, d)))
 seed = os.environ.get("VERIF_SEED", "1")
 head = subprocess.run(["git", "-C", "/repo", "rev-parse", "--short", "HEAD"], capture_output=True, text=True).stdout.strip()
 
